@@ -109,6 +109,8 @@ def check_history(case):
                 adversarial = True
                 hostile = True
                 held = ADV + revoked
+                if c % 2:
+                    held = held + cur_keys[: thr - 1]      # compromised: fewer than the threshold of the current root keys
                 # the adversary never holds a threshold of the current root keys
                 held_now = [s for s in held if s in cur_keys]
                 if len(held_now) >= thr:
@@ -136,7 +138,8 @@ def check_history(case):
                 if c % 7 == 0:
                     offer["signatures"]["junk-%d" % n] = {"signature": "00" * 64}
             elif op == "persist":
-                fn = os.path.join(d, "%d.root.json" % version)
+                # conda keeps <version>.root.json files; other clients keep one trusted-root file that is overwritten
+                fn = os.path.join(d, "%d.root.json" % version if a % 2 else "trusted_root.json")
                 C.write_metadata_to_file(trusted, fn)
                 before = copy.deepcopy(trusted)
                 trusted = None
